@@ -60,8 +60,13 @@ fn encode_direction(m: &RMsg, rng: &mut Rng, out: &mut Out) {
         Some(r) => r,
         None => return,
     };
+    let expressible = m.amf_expressible();
     let payload = match r {
         Ok(p) => p,
+        Err(_) if !expressible => {
+            out.count("message_amf0_cannot_express_refused", 1);
+            return;
+        }
         Err(e) => {
             out.violation(
                 "well-formed-message-refused",
@@ -82,7 +87,11 @@ fn encode_direction(m: &RMsg, rng: &mut Rng, out: &mut Out) {
         return;
     }
     let want_body = m.body();
-    if is_amf(m.type_id()) {
+    if !expressible {
+        // accepted although plain AMF0 strings cannot hold it (a library may use long strings):
+        // the reference layouts do not apply, but it must convert back to an equal message
+        out.count("message_amf0_cannot_express_accepted", 1);
+    } else if is_amf(m.type_id()) {
         match msg::decode(m.type_id(), &payload.data) {
             Ok(r) if r.canon() == m.canon() && payload.data.len() == want_body.len() => {}
             other => {
@@ -307,7 +316,7 @@ impl Check for C13 {
             return;
         }
         for i in 0..BATCH {
-            let m = msg::gen_msg(rng, if i % 50 == 0 { 65536 } else { 400 });
+            let m = if i == 7 && k % 4 == 0 { msg::gen_msg_with_long_string(rng) } else { msg::gen_msg(rng, if i % 50 == 0 { 65536 } else { 400 }) };
             encode_direction(&m, rng, out);
             out.shape(shape(&m));
             if i % 4 == 0 {
@@ -330,7 +339,7 @@ impl Check for C13 {
         }
     }
     fn rule(&self) -> String {
-        "messages of every RtmpMessage variant with boundary-biased u32 fields, all 9 user-control events (exactly the fields each defines), 3 limit types, AMF0 command/data with generated argument lists (transaction ids incl. NaN and -0 by bit pattern), audio/video 0-64 KiB, Unknown for every other id: message->payload compared with the reference type id and body, then payload->message compared with the original. Decode direction: all 256 type ids x {reference body, every short truncation, trailing bytes, random body, bit-flipped body}, user-control codes 0..40 x 0..3 fields, limit codes 0..255, chunk sizes around 2^31. Distinct = (variant, event/limit code, field boundary class, AMF shape).".to_string()
+        "messages of every RtmpMessage variant with boundary-biased u32 fields, all 9 user-control events (exactly the fields each defines), 3 limit types, AMF0 command/data with generated argument lists (transaction ids incl. NaN and -0 by bit pattern), audio/video 0-64 KiB, Unknown for every other id, and commands / data messages carrying one string or property name of more than 65,535 bytes (ASCII or multi-byte; these may be refused, or accepted if they convert back to an equal message): message->payload compared with the reference type id and body, then payload->message compared with the original. Decode direction: all 256 type ids x {reference body, every short truncation, trailing bytes, random body, bit-flipped body}, user-control codes 0..40 x 0..3 fields, limit codes 0..255, chunk sizes around 2^31. Distinct = (variant, event/limit code, field boundary class, AMF shape).".to_string()
     }
     fn assumptions(&self) -> Vec<String> {
         vec![
